@@ -448,8 +448,28 @@ async fn sleep_until_ms(at_ms: u64) {
 
 async fn udp_rx(ctx: Ctx, me: usize, sock: Rc<UdpSocket>) {
     let mut buf = [0u8; 64];
+    // the receive path is scenario data (two bits of the builder seed per host): plain recv_from,
+    // readable() followed by recv_from, or readable() followed by try_recv_from
+    let path = (ctx.net.cfg.rng_seed >> (2 * (me % 16))) & 3;
     loop {
-        match sock.recv_from(&mut buf).await {
+        let got = match path {
+            1 => match sock.readable().await {
+                Ok(()) => sock.recv_from(&mut buf).await,
+                Err(e) => Err(e),
+            },
+            2 => match sock.readable().await {
+                Ok(()) => match sock.try_recv_from(&mut buf) {
+                    Err(e) if e.kind() == std::io::ErrorKind::WouldBlock => {
+                        ctx.ev(Some(me), hnow(), EvKind::IoErr("readable() resolved but try_recv_from found nothing".into()));
+                        continue;
+                    }
+                    r => r,
+                },
+                Err(e) => Err(e),
+            },
+            _ => sock.recv_from(&mut buf).await,
+        };
+        match got {
             Ok((n, origin)) => match decode(&buf[..n]) {
                 Some(m @ Msg::Udp { from, .. }) => {
                     if ctx.host_of(origin.ip()) != from as usize || origin.port() != UDP_PORT {
